@@ -1,12 +1,12 @@
 SPECIFICATION Spec
 CONSTANTS
-  NMsgs = 3
-  QosOf <- Q_122
-  MaxFaults = 3
+  NMsgs = 2
+  QosOf <- Q_22
+  MaxFaults = 2
   SessionLoss = TRUE
   ClearAfterRequeue = TRUE
   KeepOldWaiter = FALSE
-  SilentLoss = FALSE
+  SilentLoss = TRUE
   LossyWrites = FALSE
 INVARIANT EmitScript
 VIEW NoHist
